@@ -91,18 +91,19 @@ Section Loop.
     (forall j, (nW <= j)%nat -> getcol j Q' = getcol j Qm).
   Proof.
     intros Hm. revert Q'. induction nW as [|n IH]; intros Q' Hn HQ.
-    - cbn in HQ. inversion HQ; subst. repeat split; auto. intros j Hj. lia.
+    - cbn in HQ. inversion HQ; subst.
+      split; [reflexivity|]. split; [exact Hm|]. split; [intros j Hj; lia | intros j Hj; reflexivity].
     - rewrite normalise_S in HQ. destruct (normalise ops B n Qm) as [Q1|e] eqn:E1; cbn [norm_step] in HQ; [|discriminate].
       destruct (IH Q1 ltac:(lia) eq_refl) as (Hl & Hc & Hlt & Hge).
       destruct (knormable ops (bform B (getcol n Q1))) eqn:Ek; [|discriminate].
       inversion HQ; subst Q'; clear HQ.
-      rewrite (Hge n (le_n n)) in *.
-      repeat split.
-      + rewrite scale_col_length. exact Hl.
-      + apply scale_col_ncols. exact Hc.
-      + destruct (Nat.eq_dec j n) as [->|Hjn]; [exact Ek|]. apply Hlt. lia.
-      + destruct (Nat.eq_dec j n) as [->|Hjn].
-        * rewrite (getcol_scale_col_same n _ m Q1 Hc) by lia. rewrite (Hge n (le_n n)). reflexivity.
+      pose proof (Hge n (le_n n)) as Hn1. rewrite Hn1 in Ek.
+      split; [rewrite scale_col_length; exact Hl|].
+      split; [apply scale_col_ncols; exact Hc|].
+      split.
+      + intros j Hj. destruct (Nat.eq_dec j n) as [->|Hjn].
+        * split; [exact Ek|].
+          rewrite (getcol_scale_col_same n _ m Q1 Hc) by lia. rewrite Hn1. reflexivity.
         * rewrite getcol_scale_col_other by auto. apply Hlt. lia.
       + intros j Hj. rewrite getcol_scale_col_other by lia. apply Hge. lia.
   Qed.
@@ -124,30 +125,28 @@ Section Loop.
   (* postprocess in closed form *)
   Lemma postprocess_spec sf B (W : list K) (Qm : mat) W' Q' :
     postprocess ops sf B W Qm = Ok (W', Q') ->
-    let isort := sf W Qm in
-    (forall j, (j < length isort)%nat -> (nth j isort O < length W)%nat) /\
-    W' = take isort W /\ length W' = length isort /\
-    length Q' = length Qm /\ ncols_ok (length isort) Q' /\
-    forall j, (j < length isort)%nat ->
-      let q := getcol (nth j isort O) Qm in
-      nth j W' nzero = nth (nth j isort O) W nzero /\
-      knormable ops (bform B q) = true /\
-      getcol j Q' = vscaler (norm_factor ops B q) q.
+    (forall j, (j < length (sf W Qm))%nat -> (nth j (sf W Qm) O < length W)%nat) /\
+    W' = take (sf W Qm) W /\ length W' = length (sf W Qm) /\
+    length Q' = length Qm /\ ncols_ok (length (sf W Qm)) Q' /\
+    forall j, (j < length (sf W Qm))%nat ->
+      nth j W' nzero = nth (nth j (sf W Qm) O) W nzero /\
+      knormable ops (bform B (getcol (nth j (sf W Qm) O) Qm)) = true /\
+      getcol j Q' = vscaler (norm_factor ops B (getcol (nth j (sf W Qm) O) Qm)) (getcol (nth j (sf W Qm) O) Qm).
   Proof.
-    unfold postprocess. intros HP isort. fold isort in HP.
+    unfold postprocess. intros HP. cbv zeta in HP. set (isort := sf W Qm) in *.
     destruct (forallb (fun i => Nat.ltb i (length W)) isort) eqn:Ef; cbn [negb] in HP; [|discriminate].
     destruct (normalise ops B (length (take isort W)) (take_cols isort Qm)) as [Q2|e] eqn:En; [|discriminate].
     inversion HP; subst W' Q'; clear HP.
     rewrite take_length in En.
     destruct (normalise_spec B (length isort) (length isort) _ Q2 (take_cols_ncols isort Qm) (le_n _) En)
       as (Hl & Hc & Hlt & _).
-    repeat split; auto.
-    - apply forallb_ltb_spec. exact Ef.
-    - apply take_length.
-    - rewrite Hl. apply take_cols_length.
-    - apply nth_take. exact H0.
-    - destruct (Hlt j H0) as [Hk _]. rewrite getcol_take_cols in Hk by exact H0. exact Hk.
-    - destruct (Hlt j H0) as [_ Hg]. rewrite getcol_take_cols in Hg by exact H0. exact Hg.
+    split; [apply forallb_ltb_spec; exact Ef|].
+    split; [reflexivity|].
+    split; [apply take_length|].
+    split; [rewrite Hl; apply take_cols_length|].
+    split; [exact Hc|].
+    intros j Hj. destruct (Hlt j Hj) as [Hk Hg]. rewrite getcol_take_cols in Hk, Hg by exact Hj.
+    split; [apply nth_take; exact Hj|]. split; [exact Hk | exact Hg].
   Qed.
 
   Lemma postprocess_total sf B (W : list K) (Qm : mat) :
@@ -241,7 +240,9 @@ Section Algebra.
     Lemma norm_factor_sgn B (q : list K) :
       exists sgn, (sgn = none_ \/ sgn = nopp none_) /\ norm_factor ops B q = ndiv sgn (ksqrt ops (bform B q)).
     Proof.
-      unfold norm_factor. destruct (kre_nonneg ops (navg q)); eexists; split; eauto.
+      unfold norm_factor. destruct (kre_nonneg ops (navg q)).
+      - exists none_. split; [left; reflexivity | reflexivity].
+      - exists (nopp none_). split; [right; reflexivity | reflexivity].
     Qed.
 
     Theorem postprocess_normalised sf B W (Qm : mat) W' Q' :
@@ -300,7 +301,8 @@ Section Order.
   Lemma take_perm (isort : list nat) (W : list K) :
     Permutation isort (seq 0 (length W)) -> Permutation (take isort W) W.
   Proof.
-    intros Hp. unfold take. rewrite <- (map_nth_seq W nzero) at 2. apply Permutation_map. exact Hp.
+    intros Hp. unfold take.
+    eapply perm_trans; [apply Permutation_map; exact Hp|]. rewrite map_nth_seq. apply Permutation_refl.
   Qed.
 
   (* any sorting function that returns a permutation (in particular the default): nothing is lost or
